@@ -64,8 +64,9 @@ Fixpoint listN_eqb' (a b : list N) : bool :=
 Definition agree_below (hist mem : list N) (p : nat) : bool := listN_eqb' (firstn p hist) (firstn p mem).
 Definition splice (hist mem : list N) (p : nat) : list N := firstn p hist ++ skipn p mem.
 
-(* (operations completed, chain in the main files before, chain under the last index, chain being
-   written, prune depth of the Load) *)
+(* (operations completed, chain in the main files before, chain that the branch files [and, after a
+   Save, the index] still describe: the tip at the last completed Clean or Save, chain being written,
+   prune depth of the Load) *)
 Definition excl := (nat * (list N * list N * list N * Z))%type.
 Definition excl_justified (e : excl) : bool :=
   let '(_, (file, index, new, d)) := e in
